@@ -89,6 +89,10 @@ class Reg(Logic):
             
         self.value = self.reset_value
         
+        # the output powers up with the same value as the internal state
+        # (the generated Verilog declares rq = reset_value)
+        self.q.put(self.value)
+        
     def clock(self):
         setValue = True
         resetValue = False
